@@ -356,7 +356,7 @@ def strat_parameters(draw, tier="quick"):
         spec["sources"].insert(0, {"name": "base", "ref": "data", "axis": "y" if t == "xy" else None, "kind": "simple", "scalar": True, "err": [spec["sigma"]] * 8, "rho": 0.0, "relative": False,
                                    "enabled": True})
     return {"spec": spec, "bad": bad, "fit_before": draw(st.booleans()), "set_before": draw(st.booleans()), "pos": draw(st.integers(0, 7)), "k": draw(st.integers(1, 3)),
-            "sign": draw(st.sampled_from([-1, 1])), "name_edit": draw(st.sampled_from(["append", "drop", "swapcase", "other"])), "asym_eps": draw(st.sampled_from([1e-3, 0.1])),
+            "sign": draw(st.sampled_from([-1, 1])), "name_edit": draw(st.sampled_from(["append", "drop", "swapcase", "other"])), "asym_eps": draw(st.sampled_from([1e-3, 0.1])), "mat_scale": draw(st.sampled_from([1.0, 1.0, 1e-4, 1e-8, 1e-12, 1e4])),
             "diag_dev": draw(st.sampled_from([1e-3, -1e-3, 0.1, -0.5])), "poisson_bad": draw(st.sampled_from(["negative", "non_integer"])), "mixed_first": draw(st.booleans()),
             "values": draw(st.lists(st.floats(-0.3, 0.3), min_size=4, max_size=4)), "suffix_fit": draw(st.booleans()), "data_as": draw(st.sampled_from(["array", "container"]))}
 
@@ -403,7 +403,8 @@ def _bad_param_call(fit, case, names, spec):
         Ca = C.copy()
         Ca[0, 1] = 0.05
         Ca[1, 0] = 0.05 + case["asym_eps"]
-        return f"add_matrix_parameter_constraint(matrix asymmetric by {case['asym_eps']})", lambda: fit.add_matrix_parameter_constraint(two, v2, Ca)
+        Ca = Ca * case.get("mat_scale", 1.0)  # the unit of the parameters is arbitrary: the same relative asymmetry at any overall size of the matrix
+        return f"add_matrix_parameter_constraint(matrix asymmetric by {case['asym_eps']} x {case.get('mat_scale', 1.0)})", lambda: fit.add_matrix_parameter_constraint(two, v2, Ca)
     if bad == "matrix_constraint_shape":
         m = kq + case["k"]
         return f"add_matrix_parameter_constraint({m}x{m} matrix for {kq} parameters)", lambda: fit.add_matrix_parameter_constraint(two, v2, np.eye(m) * 0.25)
@@ -487,7 +488,7 @@ def strat_construct(draw, tier="quick"):
     return {"kind": draw(st.sampled_from(CONSTRUCT_KINDS)), "n": n, "k": draw(st.integers(1, 3)), "sign": draw(st.sampled_from([-1, 1])), "pos": draw(st.integers(0, 7)),
             "values": draw(st.lists(st.floats(0.5, 9.5), min_size=n, max_size=n)), "gaps": draw(st.lists(st.floats(0.2, 2.0), min_size=n + 1, max_size=n + 1)),
             "margin": draw(st.sampled_from([1e-9, 1e-6, 1e-3, 0.5])), "side": draw(st.sampled_from(["below", "above"])), "diag_dev": draw(st.sampled_from([1e-3, -1e-3, 0.1, -0.5])),
-            "asym_eps": draw(st.sampled_from([1e-3, 0.1])), "fit_type": draw(st.sampled_from(["xy", "indexed", "hist"])), "reserved_index": draw(st.integers(0, 200)),
+            "asym_eps": draw(st.sampled_from([1e-3, 0.1])), "mat_scale": draw(st.sampled_from([1.0, 1.0, 1e-4, 1e-8, 1e-12, 1e4])), "fit_type": draw(st.sampled_from(["xy", "indexed", "hist"])), "reserved_index": draw(st.integers(0, 200)),
             "poisson_bad": draw(st.sampled_from(["negative", "non_integer"])), "entries": draw(st.lists(st.floats(0.0, 6.0), min_size=0, max_size=10)),
             "fill_first": draw(st.booleans())}
 
@@ -556,7 +557,8 @@ def run_construct(case):
         i, j = pos % n, (pos + 1) % n
         C[i, j] = 0.05
         C[j, i] = 0.05 + case["asym_eps"]
-        exc = _must_raise(tag, f"GaussianMatrixParameterConstraint(matrix asymmetric by {case['asym_eps']})", lambda: con.GaussianMatrixParameterConstraint(list(range(n)), v, C))
+        C = C * case.get("mat_scale", 1.0)
+        exc = _must_raise(tag, f"GaussianMatrixParameterConstraint(matrix asymmetric by {case['asym_eps']} x {case.get('mat_scale', 1.0)})", lambda: con.GaussianMatrixParameterConstraint(list(range(n)), v, C))
     elif kind == "constraint_shape":
         m = n + case["k"] if (case["sign"] > 0 or n - case["k"] < 1) else n - case["k"]
         exc = _must_raise(tag, f"GaussianMatrixParameterConstraint({m}x{m} matrix for {n} values)", lambda: con.GaussianMatrixParameterConstraint(list(range(n)), v, np.eye(m) * 0.25))
